@@ -57,6 +57,18 @@ class ListProxy(list, ContainerValueMixin):
         """
         return self.list_field.field  # type: ignore
 
+    def __deepcopy__(self, memo: dict) -> "ListProxy":
+        """
+        Copy the items. The list field belongs to the schema and is shared with the original; the
+        owning configuration is the copy of the owner when the owner is being copied along.
+        """
+        dup = list.__new__(type(self))
+        memo[id(self)] = dup
+        dup.cfg = memo.get(id(self.cfg), self.cfg)
+        dup.list_field = self.list_field
+        list.extend(dup, (copy.deepcopy(item, memo) for item in self))
+        return dup
+
     def append(self, item: Any) -> None:
         super().append(self._validate(item))
 
